@@ -572,6 +572,9 @@ func c19Do(in c19TimingIn, url string, out *c19TimingOut) {
 		},
 	}))
 	want := c19Body(in)
+	if method == "HEAD" {
+		want = "" // a response to HEAD has no body
+	}
 	out.BodyWant = len(want)
 	out.SlackUs = c19Slack.Microseconds()
 	noise := c19Noise()
@@ -719,15 +722,22 @@ func c19FreePort() (int, error) {
 	return l.Addr().(*net.TCPAddr).Port, nil
 }
 
-func c19BinaryOnce(in c19BinaryIn) (out c19TimingOut) {
+// c19Fabio is a running fabio executable (built from the tree under test) with one static route to an upstream.
+type c19Fabio struct {
+	Addr string                   // the first listener of proxy.addr
+	Gone func(time.Duration) bool // has the process exited (waiting at most that long)?
+	Stop func()
+}
+
+// c19StartFabio starts the executable: static registry with one route to upAddr (options from tgt), the five
+// transport options from c (the response-header timeout on the command line, or in the environment when rhtEnv
+// is set), extra command-line arguments, and — when listenExtra is not empty — further listeners appended to
+// proxy.addr. An error string starting with "env:" means the environment, not fabio, is to blame.
+func c19StartFabio(tgt c19Target, upAddr string, c c19Cfg, rhtEnv bool, extra []string, listenExtra string) (*c19Fabio, string) {
 	bin, err := c19Binary()
 	if err != nil {
-		out.Err = err.Error()
-		return
+		return nil, err.Error()
 	}
-	up, tgt, saw, delayUs, stop := c19UpstreamD(in.c19TimingIn)
-	defer stop()
-	defer func() { out.UpDelayUs = delayUs() }()
 	var opts []string
 	if tgt.Host != "" {
 		opts = append(opts, "host="+tgt.Host)
@@ -735,59 +745,46 @@ func c19BinaryOnce(in c19BinaryIn) (out c19TimingOut) {
 	if tgt.Skip {
 		opts = append(opts, "tlsskipverify=true")
 	}
-	routes := fmt.Sprintf("route add svc / %s://%s/", tgt.Scheme, up.Listener.Addr().String())
+	routes := fmt.Sprintf("route add svc / %s://%s/", tgt.Scheme, upAddr)
 	if len(opts) > 0 {
 		routes += ` opts "` + strings.Join(opts, " ") + `"`
 	}
 	pp, err1 := c19FreePort()
 	ui, err2 := c19FreePort()
 	if err1 != nil || err2 != nil {
-		out.Err = "env: no free port"
-		return
+		return nil, "env: no free port"
 	}
-	c := in.cfg()
 	dur := func(ns int64) string { return time.Duration(ns).String() }
 	listen := fmt.Sprintf("127.0.0.1:%d", pp)
-	if in.ListenWtMs > 0 || in.ListenRtMs > 0 {
-		// a second HTTP listener with its own read/write timeout; the measured request does not use it
+	if listenExtra != "" {
 		p2, err := c19FreePort()
 		if err != nil {
-			out.Err = "env: no free port"
-			return
+			return nil, "env: no free port"
 		}
-		listen += fmt.Sprintf(",127.0.0.1:%d", p2)
-		if in.ListenRtMs > 0 {
-			listen += fmt.Sprintf(";rt=%dms", in.ListenRtMs)
-		}
-		if in.ListenWtMs > 0 {
-			listen += fmt.Sprintf(";wt=%dms", in.ListenWtMs)
-		}
+		listen += fmt.Sprintf(",127.0.0.1:%d%s", p2, listenExtra)
 	}
 	args := []string{"-insecure", "-registry.backend", "static", "-registry.static.routes", routes,
 		"-proxy.addr", listen, "-ui.addr", fmt.Sprintf("127.0.0.1:%d", ui), "-log.level", "FATAL",
 		"-proxy.dialtimeout", dur(c.Dial), "-proxy.keepalivetimeout", dur(c.KeepAlive), "-proxy.idleconntimeout", dur(c.Idle),
-		"-proxy.maxconn", fmt.Sprint(c.MaxConn), "-proxy.flushinterval", in.flush().String()}
-	if in.Gzip {
-		args = append(args, "-proxy.gzip.contenttype", c19GzipTypes)
-	}
+		"-proxy.maxconn", fmt.Sprint(c.MaxConn)}
+	args = append(args, extra...)
 	env := []string{"PATH=" + os.Getenv("PATH"), "HOME=" + os.Getenv("HOME")}
-	tv := fmt.Sprintf("%dms", in.TMs)
-	if in.Source == "env" {
-		env = append(env, "FABIO_PROXY_RESPONSEHEADERTIMEOUT="+tv)
+	if rhtEnv {
+		env = append(env, "FABIO_PROXY_RESPONSEHEADERTIMEOUT="+dur(c.RHT))
 	} else {
-		args = append(args, "-proxy.responseheadertimeout", tv)
+		args = append(args, "-proxy.responseheadertimeout", dur(c.RHT))
 	}
 	cmd := exec.Command(bin, args...)
 	cmd.Env = env
 	cmd.Stdout, cmd.Stderr = io.Discard, io.Discard
 	if err := cmd.Start(); err != nil {
-		out.Err = "env: start: " + err.Error()
-		return
+		return nil, "env: start: " + err.Error()
 	}
 	exited := make(chan struct{})
 	go func() { cmd.Wait(); close(exited) }()
-	defer func() { cmd.Process.Kill(); <-exited }()
-	gone := func(grace time.Duration) bool {
+	f := &c19Fabio{Addr: fmt.Sprintf("127.0.0.1:%d", pp)}
+	f.Stop = func() { cmd.Process.Kill(); <-exited }
+	f.Gone = func(grace time.Duration) bool {
 		select {
 		case <-exited:
 			return true
@@ -795,37 +792,63 @@ func c19BinaryOnce(in c19BinaryIn) (out c19TimingOut) {
 			return false
 		}
 	}
-	addr := fmt.Sprintf("127.0.0.1:%d", pp)
 	ready := false
 	for i := 0; i < 400 && !ready; i++ {
-		if c, err := net.DialTimeout("tcp", addr, 100*time.Millisecond); err == nil {
+		if c, err := net.DialTimeout("tcp", f.Addr, 100*time.Millisecond); err == nil {
 			c.Close()
 			ready = true
-		} else if gone(10 * time.Millisecond) {
+		} else if f.Gone(10 * time.Millisecond) {
 			break
 		}
 	}
 	// The ports were free when they were chosen, but the machine is shared: if another process took one of them
 	// in between, fabio fails to listen and exits, and whatever answers on that port is not fabio.
-	if !ready || gone(20*time.Millisecond) {
-		out.Err = "env: fabio did not start listening (or a port was taken by another process)"
+	if !ready || f.Gone(20*time.Millisecond) {
+		f.Stop()
+		return nil, "env: fabio did not start listening (or a port was taken by another process)"
+	}
+	return f, ""
+}
+
+func c19BinaryOnce(in c19BinaryIn) (out c19TimingOut) {
+	up, tgt, saw, delayUs, stop := c19UpstreamD(in.c19TimingIn)
+	defer stop()
+	defer func() { out.UpDelayUs = delayUs() }()
+	listenExtra := ""
+	if in.ListenWtMs > 0 || in.ListenRtMs > 0 {
+		// a second HTTP listener with its own read/write timeout; the measured request does not use it
+		if in.ListenRtMs > 0 {
+			listenExtra += fmt.Sprintf(";rt=%dms", in.ListenRtMs)
+		}
+		if in.ListenWtMs > 0 {
+			listenExtra += fmt.Sprintf(";wt=%dms", in.ListenWtMs)
+		}
+	}
+	extra := []string{"-proxy.flushinterval", in.flush().String()}
+	if in.Gzip {
+		extra = append(extra, "-proxy.gzip.contenttype", c19GzipTypes)
+	}
+	f, errs := c19StartFabio(tgt, up.Listener.Addr().String(), in.cfg(), in.Source == "env", extra, listenExtra)
+	if f == nil {
+		out.Err = errs
 		return
 	}
+	defer f.Stop()
 	defer func() {
 		// an answer that is not the expected one and a fabio that is no longer there: the answer was not fabio's
-		if gone(0) || (!c19TimingAsExpected(in.c19TimingIn, out) && out.Upstream == 0 && gone(300*time.Millisecond)) {
+		if f.Gone(0) || (!c19TimingAsExpected(in.c19TimingIn, out) && out.Upstream == 0 && f.Gone(300*time.Millisecond)) {
 			out.Err = "env: the fabio process exited during the measurement"
 		}
 	}()
 	out.Used = map[string]string{"default": "default", "insecure": "insecure", "route": "route"}[in.Kind]
 	out.RHT = int64(in.TMs) * int64(time.Millisecond) // not observable from outside the process: echoed
-	c19Do(in.c19TimingIn, "http://"+addr+"/", &out)
+	c19Do(in.c19TimingIn, "http://"+f.Addr+"/", &out)
 	out.Upstream = saw()
 	return
 }
 
 var c19Accepts = []string{"", "text/event-stream", "*/*", "text/html,application/xhtml+xml;q=0.9,*/*;q=0.8", "application/json", "text/event-stream, */*"}
-var c19Methods = []string{"", "GET", "POST", "PUT", "DELETE"}
+var c19Methods = []string{"", "GET", "POST", "PUT", "DELETE", "HEAD", "OPTIONS"}
 
 func c19In(xs []string, s string) bool {
 	for _, x := range xs {
@@ -851,6 +874,9 @@ func c19CheckTiming(in c19TimingIn) error {
 	}
 	if !c19In(c19Accepts, in.Accept) || !c19In(c19Methods, in.Method) {
 		return fmt.Errorf("request outside the stream's universe")
+	}
+	if in.Method == "HEAD" && in.BodyMs > 0 {
+		return fmt.Errorf("a HEAD request has no body to stream")
 	}
 	if in.BodyMs < 0 || in.BodyMs > 4000 || in.Chunks < 0 || in.Chunks > 64 || (in.BodyMs > 0) != (in.Chunks > 0) {
 		return fmt.Errorf("body outside the range of the stream")
@@ -986,6 +1012,9 @@ func c19GenTiming(r *hx.Rand, i int, ts []int) c19TimingIn {
 		in.BodyMs = sum + sum/2 + r.Intn(100)
 		in.Chunks = 4 + r.Intn(9)
 		in.Status = []int{200, 200, 200, 201, 404}[r.Intn(5)]
+	}
+	if in.Method == "HEAD" && in.BodyMs > 0 {
+		in.Method = "OPTIONS"
 	}
 	if r.Chance(1, 15) { // no limit configured: the upstream's answer, however late
 		in.TMs = 0
